@@ -415,53 +415,191 @@ func parseConcreteJSON(raw []byte) (JVal, bool) {
 	return rd()
 }
 
-// parseSegs parses `{` k `:` v (`,` k `:` v)* `}` segment lists (as written by
-// ordered.Map.MarshalJSON) into an ordered object; ok=false when the segments
-// do not spell a JSON object (stray or missing comma, truncated member).
+// jtok is one item of a buffer read as JSON text: a whole value that was
+// written as bytes returned by json.Marshal (tree), or one byte of text.
+type jtok struct {
+	tree JVal
+	b    *Term
+}
+
+// parseSegs reads what was written to a bytes.Buffer as a JSON object (the
+// shape ordered.Map.MarshalJSON writes): `{` member (`,` member)* `}` with
+// members key `:` value. Keys and values are either whole marshalled values or
+// text; string literals in text may have symbolic bytes and follow the JSON
+// string grammar (encoding/json validates what a MarshalJSON method returns:
+// a stray comma, an unescaped control character or a non-JSON escape such as
+// `\a` or `\x7f` makes the document invalid). ok=false: not valid JSON.
 func (e *Engine) parseSegs(segs []bufSeg) (JVal, bool) {
-	// literal segments may be split or merged differently ("{" + "}" or "{}")
-	var norm []bufSeg
+	var items []jtok
 	for _, sg := range segs {
-		if sg.tree != nil {
-			norm = append(norm, sg)
-			continue
-		}
-		if sg.str != nil {
-			unsupported("symbolic text written into a buffer that is read as JSON")
-		}
-		for _, r := range sg.lit {
-			if r == ' ' || r == '\n' || r == '\t' {
-				continue
+		switch {
+		case sg.tree != nil:
+			items = append(items, jtok{tree: sg.tree})
+		case sg.str != nil:
+			for _, b := range sg.str.bytes {
+				items = append(items, jtok{b: b})
 			}
-			norm = append(norm, bufSeg{lit: string(r)})
+		default:
+			for i := 0; i < len(sg.lit); i++ {
+				items = append(items, jtok{b: mkInt(int64(sg.lit[i]))})
+			}
 		}
 	}
-	segs = norm
-	if len(segs) < 2 || segs[0].lit != "{" || segs[len(segs)-1].lit != "}" {
-		return nil, false
+	pos := 0
+	is := func(c byte) bool {
+		if pos >= len(items) || items[pos].b == nil {
+			return false
+		}
+		b := items[pos].b
+		if b.konst {
+			return b.iv == int64(c)
+		}
+		return e.decide(tEq(b, mkInt(int64(c))))
 	}
-	jo := JObj{ordered: true}
-	body := segs[1 : len(segs)-1]
-	for i := 0; i < len(body); {
-		if i > 0 {
-			if body[i].lit != "," {
+	skipWS := func() {
+		for pos < len(items) && items[pos].b != nil && items[pos].b.konst && strings.IndexByte(" \t\r\n", byte(items[pos].b.iv)) >= 0 {
+			pos++
+		}
+	}
+	// a string literal starting at the opening quote
+	strLit := func() (JVal, bool) {
+		pos++ // the quote
+		out := StrVal{}
+		for {
+			if pos >= len(items) || items[pos].b == nil {
 				return nil, false
 			}
-			i++
+			if is('"') {
+				pos++
+				return JStr{out}, true
+			}
+			if is('\\') {
+				pos++
+				if pos >= len(items) || items[pos].b == nil {
+					return nil, false
+				}
+				esc := map[byte]byte{'"': '"', '\\': '\\', '/': '/', 'b': 8, 'f': 12, 'n': 10, 'r': 13, 't': 9}
+				matched := false
+				for _, c := range []byte{'"', '\\', '/', 'b', 'f', 'n', 'r', 't'} {
+					if is(c) {
+						out.bytes = append(out.bytes, mkInt(int64(esc[c])))
+						pos++
+						matched = true
+						break
+					}
+				}
+				if matched {
+					continue
+				}
+				if is('u') {
+					var hex []byte
+					for k := 1; k <= 4; k++ {
+						if pos+k >= len(items) || items[pos+k].b == nil || !items[pos+k].b.konst {
+							unsupported("symbolic \\u escape in JSON text")
+						}
+						hex = append(hex, byte(items[pos+k].b.iv))
+					}
+					v, err := strconv.ParseUint(string(hex), 16, 16)
+					if err != nil {
+						return nil, false
+					}
+					if v >= 128 {
+						unsupported("non-ASCII \\u escape in JSON text")
+					}
+					out.bytes = append(out.bytes, mkInt(int64(v)))
+					pos += 5
+					continue
+				}
+				return nil, false // not a JSON escape
+			}
+			b := items[pos].b
+			ctl := tCmp("<", b, mkInt(0x20))
+			if (b.konst && b.iv < 0x20) || (!b.konst && e.decide(ctl)) {
+				return nil, false // unescaped control character
+			}
+			out.bytes = append(out.bytes, b)
+			pos++
 		}
-		if i+2 > len(body)-1 {
+	}
+	value := func() (JVal, bool) {
+		skipWS()
+		if pos >= len(items) {
 			return nil, false
 		}
-		k, colon, val := body[i], body[i+1], body[i+2]
-		ks, ok := k.tree.(JStr)
-		if !ok || colon.lit != ":" || val.tree == nil {
+		if items[pos].tree != nil {
+			pos++
+			return items[pos-1].tree, true
+		}
+		if is('"') {
+			return strLit()
+		}
+		// other text: concrete up to the next structural character
+		var raw []byte
+		depth := 0
+		for pos < len(items) && items[pos].b != nil {
+			b := items[pos].b
+			if !b.konst {
+				unsupported("symbolic non-string text in a buffer that is read as JSON")
+			}
+			c := byte(b.iv)
+			if depth == 0 && (c == ',' || c == '}') {
+				break
+			}
+			if c == '{' || c == '[' {
+				depth++
+			}
+			if c == '}' || c == ']' {
+				depth--
+			}
+			raw = append(raw, c)
+			pos++
+		}
+		return parseConcreteJSON(bytes.TrimSpace(raw))
+	}
+	skipWS()
+	if !is('{') {
+		return nil, false
+	}
+	pos++
+	jo := JObj{ordered: true}
+	skipWS()
+	if is('}') {
+		pos++
+		skipWS()
+		return jo, pos == len(items)
+	}
+	for {
+		k, ok := value()
+		if !ok {
+			return nil, false
+		}
+		ks, isStr := k.(JStr)
+		if !isStr {
+			return nil, false
+		}
+		skipWS()
+		if !is(':') {
+			return nil, false
+		}
+		pos++
+		v, ok := value()
+		if !ok {
 			return nil, false
 		}
 		jo.keys = append(jo.keys, ks.s)
-		jo.vals = append(jo.vals, val.tree)
-		i += 3
+		jo.vals = append(jo.vals, v)
+		skipWS()
+		if is(',') {
+			pos++
+			continue
+		}
+		if is('}') {
+			pos++
+			skipWS()
+			return jo, pos == len(items)
+		}
+		return nil, false
 	}
-	return jo, true
 }
 
 // segsText: the buffer's content as text when nothing but text was written.
